@@ -158,9 +158,26 @@ func (E *Engine) atLoopHead(m *Machine, f *Frame, l *Loop, from, head *ssa.Basic
 			}
 		}
 		for _, inv := range spec.Invariants {
+			npc := len(m.PC)
 			g := E.evalInv(m, f, ctx, spec, inv)
-			E.addObl(m, &Obligation{Name: fmt.Sprintf("%s:inv-pres@%s:%s", m.Top.Name, lname, inv.Label), Func: m.Top.Name, Kind: "inv-pres",
-				Props: inv.Props, Reading: inv.Reading, Goal: g, Src: inv.Src})
+			o := &Obligation{Name: fmt.Sprintf("%s:inv-pres@%s:%s", m.Top.Name, lname, inv.Label), Func: m.Top.Name, Kind: "inv-pres",
+				Props: inv.Props, Reading: inv.Reading, Goal: g, Src: inv.Src}
+			E.addObl(m, o)
+			if inv.HasUses && E.probing == 0 {
+				// hide the invariants of this loop that the proof does not need
+				keep := map[string]bool{lname + ":" + inv.Label: true}
+				for _, u := range inv.Uses {
+					keep[lname+":"+u] = true
+				}
+				var hy []*Term
+				for i, h := range o.Hyps {
+					if tag, ok := m.InvTag[h]; ok && strings.HasPrefix(tag, lname+":") && !keep[tag] && i < npc {
+						continue
+					}
+					hy = append(hy, h)
+				}
+				o.Hyps = hy
+			}
 		}
 		m.Dead = true
 		return true
@@ -247,6 +264,10 @@ func (E *Engine) atLoopHead(m *Machine, f *Frame, l *Loop, from, head *ssa.Basic
 	for _, inv := range spec.Invariants {
 		g := E.evalInv(m, f, ctx, spec, inv)
 		m.AssumeT(g)
+		if m.InvTag == nil {
+			m.InvTag = map[*Term]string{}
+		}
+		m.InvTag[g] = lname + ":" + inv.Label
 	}
 	m.note("loop " + lname)
 	return false
